@@ -128,6 +128,43 @@ func checkC05(p *Program, r *Report) {
 	// a memoised serialisation must follow every change of the fields it was computed from (SetNet, Zero)
 	memoCoherence(p, r, "C05.memo", "hdkeychain", "ExtendedKey", nil)
 	r.Floor("C05.memo", 0)
+	// C05.carry: the constructor the parser hands the decoded fields to stores each of them as it is (a field rewritten
+	// for some inputs makes distinct accepted strings serialise alike)
+	if ctor := p.Func("hdkeychain", "NewExtendedKey"); ctor != nil {
+		stored := map[int]bool{}
+		for _, b := range ctor.Blocks {
+			for _, in := range b.Instrs {
+				st, ok := in.(*ssa.Store)
+				if !ok {
+					continue
+				}
+				fa, ok := st.Addr.(*ssa.FieldAddr)
+				if !ok {
+					continue
+				}
+				if _, fresh := canonRoot(fa.X).(*ssa.Alloc); !fresh {
+					continue
+				}
+				if _, isConst := st.Val.(*ssa.Const); isConst {
+					continue
+				}
+				pi := paramIndex(ctor, st.Val)
+				if pi >= 0 {
+					stored[pi] = true
+				}
+				r.Add("C05.carry", FnName(ctor), "field "+fieldOfAddr(fa).Name()+" receives the constructor's argument unchanged", st.Pos(), pi >= 0,
+					map[bool]string{true: "parameter " + exprString(st.Val), false: "stored value " + exprString(st.Val) + " is not the parameter itself: the field is rewritten for some inputs"}[pi >= 0])
+			}
+		}
+		for i, prm := range ctor.Params {
+			if !stored[i] {
+				r.Add("C05.carry", FnName(ctor), "argument "+prm.Name()+" reaches a field of the key", ctor.Pos(), false, "the parameter is not stored as it is")
+			}
+		}
+		r.Floor("C05.carry", 5)
+	} else {
+		r.Unresolved("C05.carry", "hdkeychain.NewExtendedKey")
+	}
 	r.Explain = "C05.len: every accepting return of NewKeyFromString knows len(decoded) == 82 (78-byte payload + 4-byte checksum). C05.checksum: it lies behind a " +
 		"full 4-byte SHA256d comparison over decoded[:len−4]. C05.valid: the accepting path is split by the first key byte; on the private arm both scalar " +
 		"range tests (Cmp(N) ≥ 0, Sign() == 0) reject and exactly the leading zero byte is stripped; on the public arm the curve-point parser succeeded on " +
